@@ -140,6 +140,9 @@ impl<C: Ctr> CmsSut<C> {
     }
 }
 impl<C: Ctr> Sut for CmsSut<C> {
+    fn config(&self) -> Value {
+        json!([self.s.w(), self.s.d()])
+    }
     const TAG: &'static str = "cms";
     fn new(cfg: &Value) -> Self {
         let u = build_universe(cfg);
